@@ -23,6 +23,10 @@ import CaddyModel.Gen.CAWrites
 import CaddyModel.Gen.Autosave
 import CaddyModel.Gen.Resume
 import CaddyModel.Gen.ChangeConfig
+import CaddyModel.Gen.LoadEndpoint
+import CaddyModel.Gen.CAStorage
+import CaddyModel.C14.Endpoint
+import CaddyModel.C14.TwoStores
 
 namespace CaddyModel.C14
 
@@ -818,5 +822,170 @@ theorem resume_read_matches_source :
 theorem change_config_runs_before_success_matches_source :
     Gen.changeConfigReturnsBeforeRun = ["APIError{…}", "errSameConfig", "APIError{…}"] ∧
     Gen.changeConfigNilReturnsBeforeRun = 0 ∧ Gen.changeConfigRunCalls = 1 := by decide
+
+/-! ### the /load endpoint (caddyconfig/load.go handleLoad, `Endpoint.lean`) -/
+
+/-- a concrete adapter for the examples: the document is the body without its first byte; the empty body is an error -/
+def exAdapt : Bytes → Option Bytes
+  | [] => none
+  | _ :: t => some t
+
+def exMk (b : Bytes) (f : Bool) : Load := ⟨b, f, true, true, true, true⟩
+
+example : FaithfulMk exMk := fun _ _ => ⟨rfl, rfl⟩
+
+/-- **load_endpoint_autosaves_adapted_document.**  A body pushed to `POST /load` with the Content-Type of a
+    registered adapter (a Caddyfile): if the adapter yields `j` and `j` is accepted with persistence on — and it
+    is not the byte-identical running document, or the reload is forced — then when the request returns the
+    running document AND the autosave file are `j`, the adapted JSON; the file never holds the body that was sent. -/
+theorem load_endpoint_autosaves_adapted_document (adapt : Bytes → Option Bytes) (mk : Bytes → Bool → Load)
+    (hmk : FaithfulMk mk) (r : LoadReq) (a : AState) (j : Bytes)
+    (hpost : r.post = true) (hct : r.ctype = .adapter true) (hj : adapt r.body = some j)
+    (hacc : (mk j (forceOf r.cache)).accepted = true) (hp : (mk j (forceOf r.cache)).persists = true)
+    (hnew : a.cur ≠ some j ∨ r.cache = .mustRevalidate) :
+    (endpointStep adapt mk r a).res = .ok ∧ (endpointStep adapt mk r a).st.fs.path = some j ∧
+    (endpointStep adapt mk r a).st.cur = some j ∧
+    (j ≠ r.body → (endpointStep adapt mk r a).st.fs.path ≠ some r.body) := by
+  have hs : sameCfg (mk j (forceOf r.cache)) a = false := by
+    simp only [sameCfg, (hmk j _).1, (hmk j _).2, Bool.and_eq_false_iff]
+    cases hnew with
+    | inl h => right; simpa using h
+    | inr h => left; simp [h, forceOf]
+  have h := loadStep_fresh_ok _ a hs hp hacc
+  rw [(hmk j _).1] at h
+  have he : endpointStep adapt mk r a = loadStep codeStyle (mk j (forceOf r.cache)) none a := by
+    simp [endpointStep, handleLoad, hpost, hct, adaptByContentType, hj]
+  rw [he]
+  refine ⟨h.1, h.2.1, h.2.2.1, ?_⟩
+  intro hne
+  rw [h.2.1]
+  intro hh
+  exact hne (Option.some.inj hh)
+
+example : (endpointStep exAdapt exMk ⟨true, .adapter true, .absent, [9, 7]⟩ ⟨some [1], ⟨some [1], none⟩⟩).st.fs.path = some [7] ∧
+    (endpointStep exAdapt exMk ⟨true, .adapter true, .absent, [9, 7]⟩ ⟨some [1], ⟨some [1], none⟩⟩).res = .ok := by decide
+
+/-- **load_endpoint_refusal_touches_nothing.**  A request the handler answers before `caddy.Load` (wrong method;
+    unparsable Content-Type, unknown adapter, adapter error) changes neither the running document nor any file. -/
+theorem load_endpoint_refusal_touches_nothing (adapt : Bytes → Option Bytes) (mk : Bytes → Bool → Load)
+    (r : LoadReq) (a : AState)
+    (h : r.post = false ∨ adaptByContentType adapt r.ctype r.body = none) :
+    (endpointStep adapt mk r a).res = .rejected ∧ (endpointStep adapt mk r a).st = a ∧
+    (endpointStep adapt mk r a).log = [] := by
+  cases h with
+  | inl h => simp [endpointStep, handleLoad, h]
+  | inr h => cases hp : r.post <;> simp [endpointStep, handleLoad, h, hp]
+
+example : adaptByContentType exAdapt (.adapter true) [] = none ∧ adaptByContentType exAdapt (.adapter false) [1] = none ∧
+    (endpointStep exAdapt exMk ⟨true, .adapter true, .mustRevalidate, []⟩ ⟨some [1], ⟨some [1], none⟩⟩).st
+      = ⟨some [1], ⟨some [1], none⟩⟩ := by decide
+
+/-- **load_endpoint_force_is_exact_header.**  Pushing the byte-identical running document: with
+    `Cache-Control: must-revalidate` it is loaded again and the autosave file is written again in full (create
+    temp, write, rename — so a damaged or removed file is restored); with no header, or ANY other value (the
+    handler compares with `==`: `no-cache, must-revalidate` is another value), it is the no-op. -/
+theorem load_endpoint_force_is_exact_header (adapt : Bytes → Option Bytes) (mk : Bytes → Bool → Load)
+    (hmk : FaithfulMk mk) (r : LoadReq) (a : AState) (j : Bytes)
+    (hpost : r.post = true) (hj : adaptByContentType adapt r.ctype r.body = some j)
+    (hcur : a.cur = some j)
+    (hacc : ∀ f, (mk j f).accepted = true) (hp : ∀ f, (mk j f).persists = true) :
+    (r.cache = .mustRevalidate →
+      (endpointStep adapt mk r a).res = .ok ∧ (endpointStep adapt mk r a).log = autosaveOps .tmpRename j ∧
+      (endpointStep adapt mk r a).st.fs.path = some j) ∧
+    (r.cache ≠ .mustRevalidate →
+      (endpointStep adapt mk r a).res = .same ∧ (endpointStep adapt mk r a).log = [] ∧
+      (endpointStep adapt mk r a).st = a) := by
+  have he : endpointStep adapt mk r a = loadStep codeStyle (mk j (forceOf r.cache)) none a := by
+    simp [endpointStep, handleLoad, hpost, hj]
+  rw [he]
+  constructor
+  · intro hc
+    have hs : sameCfg (mk j (forceOf r.cache)) a = false := by
+      simp [sameCfg, (hmk j _).2, hc, forceOf]
+    have h := loadStep_fresh_ok _ a hs (hp _) (hacc _)
+    rw [(hmk j _).1] at h
+    exact ⟨h.1, h.2.2.2, h.2.1⟩
+  · intro hc
+    have hf : forceOf r.cache = false := by
+      cases hcc : r.cache <;> simp_all [forceOf]
+    have hs : sameCfg (mk j (forceOf r.cache)) a = true := by
+      simp [sameCfg, (hmk j _).2, (hmk j _).1, hf, hcur]
+    unfold loadStep
+    simp [hs]
+
+example : (endpointStep exAdapt exMk ⟨true, .json, .mustRevalidate, [7]⟩ ⟨some [7], ⟨none, none⟩⟩).st.fs.path = some [7] ∧
+    (endpointStep exAdapt exMk ⟨true, .json, .other, [7]⟩ ⟨some [7], ⟨none, none⟩⟩).st.fs.path = none ∧
+    (endpointStep exAdapt exMk ⟨true, .json, .other, [7]⟩ ⟨some [7], ⟨none, none⟩⟩).res = .same := by decide
+
+/-- the handler as modelled is the handler in the tree: `forceReload` is one `==` comparison of the
+    `Cache-Control` header with `must-revalidate`; `caddy.Load` is called once, with `body` and that flag; `body`
+    is the raw buffer and then the result of `adaptByContentType(ctHeader, body)` (regenerated fact
+    `Gen/LoadEndpoint.lean`) -/
+theorem load_endpoint_matches_source :
+    Gen.loadForceHeader = codeForceHeader ∧ Gen.loadForceCompare = codeForceCompare ∧
+    Gen.loadForceValue = codeForceValue ∧ Gen.loadForceDefs = 1 ∧ Gen.loadCalls = 1 ∧
+    Gen.loadCallArgs = codeLoadArgs ∧ Gen.loadBodyAssigns = codeBodyAssigns ∧
+    Gen.loadAdaptArgs = ["ctHeader", "body"] := by decide
+
+/-! ### which storage the CA lives on (ca.go Provision: the CA's own `storage` module, else the config's) -/
+
+/-- **startup_touches_only_selected_storage.**  A start-up — interrupted anywhere or not — on one storage leaves the other storage exactly as it was -/
+theorem startup_touches_only_selected_storage (ord : Order) (ds : Disks) (s : StoreSel) (e : Event) :
+    ((ds.step ord s e).sel s.other).store = (ds.sel s.other).store := by
+  cases s <;> rfl
+
+example : ((Disks.empty.step codeOrder .own ⟨⟨1, 100⟩, none⟩).sel .global).store .rootCrt = none ∧
+    ((Disks.empty.step codeOrder .own ⟨⟨1, 100⟩, none⟩).sel .own).store .rootCrt ≠ none := by decide
+
+/-- a config that names another storage starts a NEW CA there (by design), and going back finds the old one -/
+example : ((runHist2 codeOrder [(.global, ⟨⟨1, 100⟩, none⟩), (.own, ⟨⟨2, 100⟩, none⟩), (.global, ⟨⟨3, 100⟩, none⟩)] Disks.empty).sel .own).store .rootCrt
+      ≠ ((runHist2 codeOrder [(.global, ⟨⟨1, 100⟩, none⟩), (.own, ⟨⟨2, 100⟩, none⟩), (.global, ⟨⟨3, 100⟩, none⟩)] Disks.empty).sel .global).store .rootCrt ∧
+    ((runHist2 codeOrder [(.global, ⟨⟨1, 100⟩, none⟩), (.own, ⟨⟨2, 100⟩, none⟩), (.global, ⟨⟨3, 100⟩, none⟩)] Disks.empty).sel .global).store .rootCrt
+      = ((runHist2 codeOrder [(.global, ⟨⟨1, 100⟩, none⟩)] Disks.empty).sel .global).store .rootCrt := by decide
+
+/-- **root_stable_per_storage** — `root_stable`'s precondition "the same storage in every start-up" as a
+    theorem about the world with two storages: once a root certificate is on a storage (`root_stable`: after the
+    first successful start-up there), every later history of start-ups whose configs select EITHER storage at will
+    (the CA's `storage` module added, dropped, replaced by reloads; each start-up interrupted anywhere) leaves
+    that storage's root certificate and key unchanged, and every later start-up that selects it and returns uses
+    that root. -/
+theorem root_stable_per_storage (sel : StoreSel) (b : Blob) :
+    ∀ (evs : List (StoreSel × Event)) (ds : Disks), (ds.sel sel).store .rootCrt = some b →
+      ((runHist2 codeOrder evs ds).sel sel).store .rootCrt = some b ∧
+      ((runHist2 codeOrder evs ds).sel sel).store .rootKey = (ds.sel sel).store .rootKey ∧
+      ∀ (e : Event) (m : Mem) (y : Sys),
+        e.run codeOrder ((runHist2 codeOrder evs ds).sel sel) = .ok m y → m.root.crt = b
+  | [], ds, h => by
+    refine ⟨h, rfl, ?_⟩
+    intro e m y hr
+    have hs := wp_sound e.fault (startup codeOrder e.cfg) _ (boot (ds.sel sel))
+      (wp_startup_root_frozen codeOrder e.cfg _ _ b h)
+    unfold Event.run at hr
+    change exec e.fault (startup codeOrder e.cfg) (boot (ds.sel sel)) = _ at hr
+    rw [hr] at hs
+    exact hs.2
+  | (s, e) :: es, ds, h => by
+    have h1 : ((ds.step codeOrder s e).sel sel).store .rootCrt = some b ∧
+        ((ds.step codeOrder s e).sel sel).store .rootKey = (ds.sel sel).store .rootKey := by
+      by_cases hse : s = sel
+      · subst hse
+        have hf := root_frozen codeOrder [e] (ds.sel s) b h
+        cases s <;> exact hf
+      · cases s <;> cases sel <;> first | exact absurd rfl hse | exact ⟨h, rfl⟩
+    have ih := root_stable_per_storage sel b es (ds.step codeOrder s e) h1.1
+    exact ⟨ih.1, ih.2.1.trans h1.2, ih.2.2⟩
+
+/-- the hypothesis of `root_stable_per_storage` is what one uninterrupted start-up establishes -/
+example : (((Disks.empty.step codeOrder .own ⟨⟨1, 100⟩, none⟩)).sel .own).store .rootCrt = some (.cert 0 0 (1 + rootLife)) := by decide
+
+/-- the selection `Disks.sel` models is the one in the tree, and the whole start-up program runs on the selected
+    storage: CA.Provision assigns `ca.storage` twice (the CA's own module, else `ctx.Storage()`), and every storage
+    operation of package caddypki — the two loads and two stores each of root and intermediate — has the receiver
+    `ca.storage` (regenerated fact `Gen/CAStorage.lean`; one operation on another receiver would split a CA's files
+    over two storages, which `Event.run` on ONE `Disk` could not express) -/
+theorem ca_storage_selection_matches_source :
+    Gen.caStorageAssigns = ["cmStorage", "ctx.Storage()"] ∧
+    Gen.caStorageOps = ["ca.go:Load:ca.storage", "ca.go:Load:ca.storage", "ca.go:Store:ca.storage", "ca.go:Store:ca.storage",
+                        "ca.go:Load:ca.storage", "ca.go:Load:ca.storage", "ca.go:Store:ca.storage", "ca.go:Store:ca.storage"] := by decide
 
 end CaddyModel.C14
